@@ -656,3 +656,7 @@ def replay(path):
         print("VIOLATION property=%s replay=%s" % (PROP, path))
         print("  sig=%s :: %s" % (v["sig"], v["msg"][:300]))
     return 1 if res.violations else 0
+
+
+# (what later rounds of seeded changes added to the workload; part of the evidence's description of the check)
+RULE += "; " + 'follow-up operations issued in two orders; three writers on one store object with real-time order (one create answered before the other with the same UID begins: the second must be refused)'
